@@ -97,6 +97,11 @@ def firstLastAlpn (s : Bytes) : Char × Char :=
     let nChars := (s.filter (fun b => !isCont b)).length
     (asciiOr9 b0, if nChars ≤ 1 then '0' else asciiOr9 (s.getLastD 0))
 
+/-- `match &self.alpn { Some(alpn) => first_last_alpn(alpn), None => ('0', '0') }` -/
+def alpnPair : Option Bytes → Char × Char
+  | some a => firstLastAlpn a
+  | none => ('0', '0')
+
 /-- bytes of an ASCII text -/
 def strBytes (s : Str) : Bytes := s.map (fun c => UInt8.ofNat c.toNat)
 def hexOfBytes (b : Bytes) : Str :=
@@ -115,7 +120,7 @@ def generateJa4 (sha : Bytes → Bytes) (s : Signature) (original : Bool) : Ja4P
   let sniInd : Str := if s.sni.isSome then ['d'] else ['i']
   let cc := decW countWidth (min s.ciphers.length cipherCountCap)
   let ec := decW countWidth (min s.extensions.length extCountCap)
-  let al := match s.alpn with | some a => firstLastAlpn a | none => ('0', '0')
+  let al := alpnPair s.alpn
   let a := ['t'] ++ s.version.render ++ sniInd ++ cc ++ ec ++ [al.1, al.2]
   let cb := if original then fc else sortNat fc
   let b := hexList cb
@@ -484,9 +489,14 @@ def Acc.step (a : Acc) (x : ExtV) : Acc :=
   | .pointFormats b => { a with pointFormats := b.map (·.toNat) }
   | _ => a
 
+/-- `if let Some(ext_data) = &client_hello.ext { parse_tls_extensions(ext_data) }` -/
+def parsedExts (bodyOk : Nat → Bytes → Bool) : Option Bytes → List ExtV
+  | some d => parseExts bodyOk d.length d
+  | none => []
+
 /-- `extract_tls_signature_from_client_hello` -/
 def extractSig (bodyOk : Nat → Bytes → Bool) (h : Hello) : Signature :=
-  let xs := match h.ext with | some d => parseExts bodyOk d.length d | none => []
+  let xs := parsedExts bodyOk h.ext
   let a := xs.foldl Acc.step {}
   { version := determineVersion h.version a.extensions,
     ciphers := filterGrease h.ciphers,
@@ -511,5 +521,33 @@ def parseClientHello (bodyOk : Nat → Bytes → Bool) (data : Bytes) : PR Signa
       match firstHello ms with
       | some h => .sig (extractSig bodyOk h)
       | none => .notHello
+
+/-- Everything the implementation reports about a ClientHello (the observables of C04). -/
+structure Report where
+  ja4 : Str
+  ja4r : Str
+  ja4o : Str
+  ja4ro : Str
+  version : String        -- name of the `TlsVersion` variant
+  sni : Option Bytes
+  alpn : Option Bytes
+  ciphers : List Nat
+  extensions : List Nat
+  sigAlgs : List Nat
+  groups : List Nat
+  deriving DecidableEq, Repr, Inhabited
+
+def reportOf (sha : Bytes → Bytes) (sg : Signature) : Report :=
+  let j := generateJa4 sha sg false
+  let o := generateJa4 sha sg true
+  { ja4 := j.full, ja4r := j.raw, ja4o := o.full, ja4ro := o.raw, version := sg.version.name,
+    sni := sg.sni, alpn := sg.alpn, ciphers := sg.ciphers, extensions := sg.extensions,
+    sigAlgs := sg.sigAlgs, groups := sg.curves }
+
+/-- `parse_tls_client_hello(bytes)` followed by `generate_ja4()` / `generate_ja4_original()`. -/
+def modelReport (sha : Bytes → Bytes) (bodyOk : Nat → Bytes → Bool) (b : Bytes) : Option Report :=
+  match parseClientHello bodyOk b with
+  | .sig sg => some (reportOf sha sg)
+  | _ => none
 
 end Huginn.Tls
